@@ -243,6 +243,14 @@ func wkt(wkt string) (*SR, error) {
 	if math.IsNaN(sr.Lat0) {
 		sr.Lat0 = sr.Lat1
 	}
+	// OGC WKT gives the central meridian of these projections as
+	// longitude_of_center (ESRI writes central_meridian).
+	if math.IsNaN(sr.Long0) && !math.IsNaN(sr.LongC) {
+		switch sr.Name {
+		case "Albers_Conic_Equal_Area", "Equidistant_Conic", "Lambert_Azimuthal_Equal_Area":
+			sr.Long0 = sr.LongC
+		}
+	}
 
 	return sr, err
 }
